@@ -24,6 +24,11 @@ def run(tier):
             if (v["kind"] == "assert" and v["id"].startswith("C11.")) or v["kind"] == "deadlock":
                 c.handle("ship", entry, v, make_tape=ship_tape, hang_s=6)
     hubstep.run_hub(c, ["H_Hub_C11_Closed"], ("C11.",))
+    # the real hub with real ship connections: ends accounted once, registry and notifications consistent after settling
+    kc = 4
+    c.bounds["composed_hub_ship_events"] = kc
+    c.assumptions.append("composed part (H_C11_Compose): the real Hub with up to 3 real ShipConnections of one SKI (transport faked, handshake completion driven through the real approveHandshake), every sequence of up to %d events from {further incoming / outgoing connection through the double-connection check and registration, handshake completes, DisconnectSKI, UnregisterRemoteSKI, Shutdown, transport failure, handshake timeout, the 500 ms delays elapse}; goroutines that do not sleep run right after their event, sleeping ones when the harness lets time pass; after settling: no ended connection registered, no live connection unregistered, one disconnect notification per ended connection, last notification is setup iff a completed connection is registered" % kc)
+    hubstep.run_hub(c, ["H_C11_Compose%d" % kc], ("C11.",), replay=True, extra_cuts=lib.SHIP_CUTS)
     # the same step racing the registration of a newer connection (two goroutines, delay-bounded schedules)
     res3, meta3 = lib.run_engine("hub", ["H_Hub_C11_CloseVsRegister"], sched="explore", preempt=4, cuts=hubstep.HUB_CUTS, loop=64)
     c.add_run("close-vs-register", res3, meta3)
